@@ -137,6 +137,9 @@ def const_key(c):
     return ("opaque", c.get("ty"), c.get("item"))
 
 
+TUPLE_ACCESSOR_EQUIV = {}     # (tuple-returning accessor, component index) -> single accessor returning the same thing; filled by Program
+
+
 NONE_RV = {"k": "aggregate", "agg": "adt", "adt": "std::option::Option", "variant": "None", "vidx": 0, "fields": [], "ops": []}
 
 
@@ -559,6 +562,9 @@ class Body:
             return e.a[0] if e.k == "ref" else E("deref", e)
         if "f" in el:
             name = el.get("n", el["f"])
+            if e.k == "call" and len(e.a[1]) == 1 and (e.a[0], el["f"]) in TUPLE_ACCESSOR_EQUIV:
+                # `x.as_tuple().1` is `x.word()`: a tuple-returning accessor's component is the single accessor that returns the same thing
+                return E("call", TUPLE_ACCESSOR_EQUIV[(e.a[0], el["f"])], e.a[1], e.a[2], t=e.t)
             if e.k == "agg" and (e.a[0] in ("tuple",) or str(e.a[0]).startswith("adt:") or str(e.a[0]).startswith("closure:")) \
                     and isinstance(el["f"], int) and el["f"] < len(e.a[1]):
                 return e.a[1][el["f"]]      # (a spliced-in closure body reads its captures from the closure value built in the caller)
